@@ -45,10 +45,13 @@ type simMaster struct {
 	ln     net.Listener
 	addr   string
 	onDump func(c *simConn, req dumpReq) []action
-	mu     sync.Mutex
-	conns  []*simConn
-	prog   int // handler progress (transactions accepted or rejected so far on the current attempt)
-	cond   *sync.Cond
+	// onQuery, if set, is called when a COM_QUERY arrives, before it is answered ("cancel-on-query": the caller cancels
+	// while the replica is still setting the connection up)
+	onQuery func()
+	mu      sync.Mutex
+	conns   []*simConn
+	prog    int // handler progress (transactions accepted or rejected so far on the current attempt)
+	cond    *sync.Cond
 	// refuse makes the next connection fail before a dump exists: "handshake-err" | "close-on-accept" | "query-err" | "rst-after-query"
 	refuse string
 }
@@ -239,6 +242,15 @@ func (m *simMaster) serve(c net.Conn, sc *simConn, refuse string) {
 			sc.mu.Unlock()
 			if refuse == "close-on-query" {
 				return // the connection dies while the checksum query is in flight: no reply at all
+			}
+			if refuse == "cancel-on-query" {
+				m.mu.Lock()
+				f := m.onQuery
+				m.mu.Unlock()
+				if f != nil {
+					f()
+					time.Sleep(5 * time.Millisecond) // the cancel is in before the reply
+				}
 			}
 			if refuse == "query-err" {
 				writePacket(c, 1, errPacket(1193, "Unknown system variable 'binlog_checksum'"))
